@@ -1,0 +1,15 @@
+//go:build !verif
+
+package corebgp
+
+import (
+	"context"
+	"net"
+	"net/netip"
+)
+
+// verifEnabled is false unless the package is built with the "verif" build
+// tag; every hook call site is guarded by it and is dead code in normal builds.
+const verifEnabled = false
+
+var verifDialHook func(ctx context.Context, local, remote netip.Addr, port int) (net.Conn, error)
